@@ -487,11 +487,12 @@ pub fn gen_run(a: &Args, out: &mut Out, run0: u64, nruns: u64, npairs: u64) {
         let mut calls = 0;
         while calls < 8 {
             calls += 1;
-            let kind = pick(&mut rng, &["limit", "limit", "over", "out", "run", "pcne", "stepin"]);
+            let kind = pick(&mut rng, &["limit", "limit", "over", "out", "run", "pcne", "stepin", "bpat"]);
             if kind == "stepin" { if m.step(out, false, false) == "panic" { break; } continue; }
             // (limits far beyond what the run can reach, up to u64::MAX: the count must not wrap)
             let arg: u64 = match kind { "limit" => if chance(&mut rng, 20) { pick(&mut rng, &[u64::MAX, u64::MAX - 1, u64::MAX - 7, 1u64 << 63, (1u64 << 32) + 3, 1u64 << 31]) } else { rng.random_range(0..25u64) },
-                                        "pcne" => 0x3000 + rng.random_range(0..20u64), _ => 0 };
+                                        "pcne" => 0x3000 + rng.random_range(0..20u64),
+                                        "bpat" => (rng.random_range(0..12u64) << 16) | (0x3000 + rng.random_range(0..20u64)), _ => 0 };
             let clr_at = if chance(&mut rng, 30) { rng.random_range(1..25u32) } else { 150 };
             let mut script = vec![];
             if chance(&mut rng, 40) { script.push((rng.random_range(1..40u32), IntCmd { k: 1, vect: pick(&mut rng, &[0x90u8, 0x91, 0x92]), prio: rng.random_range(0..8u8) })); }
